@@ -119,8 +119,6 @@ def guard_literals(nf: NF, cfg, mi, node_id: int, drop_loops: bool = True, inlin
         if reach[True] == reach[False]:
             continue
         lab = True if reach[True] else False
-        if rejects_input(bn.ast, lab):
-            continue
         names = {x.id for x in ast.walk(bn.ast.test) if isinstance(x, ast.Name)}
         if not all(rd[node_id].get(nm) == rd[bn.id].get(nm) for nm in names):
             continue
